@@ -47,6 +47,21 @@ def showNeed (a : Nat) : Needs.Need → String
   | .full lo hi => s!"{a}:F{lo}-{hi}"
   | .part v seqs => s!"{a}:P{v}:{showRanges seqs}"
 
+def showItemFull : Item → String
+  | .empty s lo hi => s!"E{s}:{lo}-{hi}"
+  | .full s v lo hi last cs => s!"F{s}:{v}:{lo}-{hi}/{last}:{showList (cs.map showChg)}"
+
+def parseNeed (s : String) : Option Needs.Need :=
+  if s.startsWith "F" then
+    (range? (s.drop 1).toString).bind fun (lo, hi) => if 1 ≤ lo ∧ lo ≤ hi then some (.full lo hi) else none
+  else if s.startsWith "P" then
+    match (s.drop 1).toString.splitOn ":" with
+    | [v, rs] => do
+      let v ← v.toNat?; let rs ← rangeList? rs
+      if rs.isEmpty ∨ rs.any (fun r => r.1 > r.2) then none else some (.part v rs)
+    | _ => none
+  else none
+
 def showItem : Item → String
   | .empty s lo hi => s!"E{s}:{lo}-{hi}"
   | .full s v lo hi last cs => s!"F{s}:{v}:{lo}-{hi}/{last}:{showNats (cs.map (·.seq))}"
@@ -137,6 +152,10 @@ def step (st : CState) (toks : List String) : Option (CState × String) :=
     let dst' := if kept.isEmpty then dst else dst.deliver kept
     let st1 := (st.setNode src).setNode dst'
     pure (st1, s!"ok needs={showList (flat.map fun an => showNeed an.1 an.2) ";"} msgs={showList (msgs.map showItem) ";"}")
+  | ["nserve", n, site, need] => do
+    let i ← nodeIdx n; let a ← nodeIdx site; let nd ← parseNeed need
+    let node := st.node i
+    pure (st.setNode node, s!"ok msgs={showList ((node.serve a nd).map showItemFull) ";"}")
   | ["nstate", n] => do
     let i ← nodeIdx n
     pure (st.setNode (st.node i), showState (st.node i).syncState)
